@@ -159,14 +159,59 @@ def stream_supersets(ctx):
                         ctx.oracle_fail(f"tree of columns {[t['names'][c] for c in comb0]} differs (beyond the dimension order) when the columns are moved ('{layout}')", case, "moved-tree")
 
 
+def stream_wide_superset(ctx):
+    """a table inside a wide superset (24 columns): the dependence measures ask the superset forest for every pair of columns (300 trees) before the
+    trees and buckets of the base columns are compared with those of the table alone"""
+    from syndiffix.bucket import harvest
+    from syndiffix.clustering.measures import measure_all
+    R = ctx.rng
+    St = ctx.stream("O-wide-superset", "2-column table with outliers inside a 24-column superset; measure_all(superset forest) first; 1-2 column trees and bucket lists of the base "
+                    "columns compared with the table alone; non-trivial = tree with >= 1 split")
+    for _ in range(ctx.scale(1, 4)):
+        n = R.choice([60, 90])
+        base = [[float(R.randint(0, 6)) for _ in range(n)], [float(R.randint(0, 3)) * 2.5 for _ in range(n)]]
+        for col in base:          # a few far outliers so that the 1-column roots are pushed down
+            for r_ in R.sample(range(n), 3): col[r_] = R.choice([500.0, 9000.0, -700.0])
+        t = TS.gen_table(R, max_rows=n, ncols=2, params="default", rows=[n]); t["cols"] = base; t["names"] = ["ba", "bb"]; t["pids"] = None; t["pid_mode"] = "unique"
+        extra = [[float(R.randint(0, 2)) for _ in range(n)] for _ in range(22)]
+        pos = [R.randrange(0, 12), R.randrange(12, 24)]
+        cols, names, k = [], [], 0
+        for j in range(24):
+            if j in pos: cols.append(base[pos.index(j)]); names.append(t["names"][pos.index(j)])
+            else: cols.append(extra[k]); names.append(f"x{k}"); k += 1
+        tv = dict(t, cols=cols, names=names)
+        F0, _ = TS.build_real(t); Fv, _ = TS.build_real(tv)
+        measure_all(Fv)
+        for comb0 in [(0,), (1,), (0, 1)]:
+            combv = tuple(pos[c] for c in comb0)
+            r0 = F0.get_tree(comb0)
+            try:
+                rv = Fv.get_tree(combv)
+            except RecursionError:
+                ctx.oracle_fail(f"the tree of base columns {comb0} cannot be built in the 24-column superset after measure_all(superset) (RecursionError) although the table alone "
+                                f"gives it: what is released for these columns depends on the other columns", {"rows": n, "base_columns_at": pos, "comb": comb0, "cols": base}, "superset-tree")
+                continue
+            St.count((repr(base), comb0), TS.tree_stats(r0)["depth"] >= 1, {"rows": n, "positions": pos, "comb": comb0, "tree": TS.tree_stats(r0)})
+            case = {"rows": n, "base_columns_at": pos, "comb": comb0, "cols": base if n <= 60 else "..."}
+            if TS.dump_real(r0) != TS.dump_real(rv):
+                ctx.oracle_fail(f"tree of base columns {comb0} differs between the table and its 24-column superset after measure_all(superset)", case, "superset-tree")
+                continue
+            b0 = [(b.count, TS.ivs(b.intervals)) for b in harvest(r0, random.Random(0))]
+            bv = [(b.count, TS.ivs(b.intervals)) for b in harvest(rv, random.Random(0))]
+            if b0 != bv:
+                ctx.oracle_fail(f"buckets of base columns {comb0} differ between the table and its 24-column superset", case, "superset-buckets")
+
+
 def run(ctx, built):
     extraction(ctx)
     TS.stream_tree(ctx, built, ctx.scale(10, 120), with_counts=True, maxdim=2, name="S-tree+counts")
+    TS.stream_harvest(ctx, built, ctx.scale(8, 80), maxdim=3, max_rows=ctx.scale(120, 300))      # buckets of every combination, wherever its columns sit in the table
+    stream_wide_superset(ctx)
     stream_supersets(ctx)
     stream_processes(ctx)
 
 
 def search(ctx, seeds):
     sub = Ctx(ctx.pid, "quick", ctx.seed + 256203221)
-    stream_supersets(sub); stream_processes(sub)
+    stream_supersets(sub); stream_wide_superset(sub); stream_processes(sub)
     ctx.oracle_failures += sub.oracle_failures
